@@ -55,24 +55,23 @@ func runC25(c *core.Ctx) {
 			return true
 		})
 		c.Check(okNB, "NewBatch wraps the batch with this store", "T20", nb.Pos(), "NewBatch returns &flaggedBatch{db: s}", "NewBatch does not return a flaggedBatch bound to the flagged store")
-		// each mutator delegates only after modified() returned nil
+		// each mutator delegates only after modified() returned nil; the raw write may be made in the
+		// mutator, in a helper it calls, or in a callback it hands to a helper that calls modified() first
+		// (c25_flag.go)
 		type mut struct{ fn, delegate string }
 		n := 0
 		for _, m := range []mut{{fStore + ".Put", kvPut}, {fStore + ".Delete", kvDelete}, {fBatch + ".Write", "kvdb.Batch.Write"}} {
 			f := c.Fn(m.fn)
-			mods := f.CallsTo(fStore + ".modified")
-			dels := f.CallsTo(m.delegate)
-			c.Need(len(dels) >= 1, short(m.fn)+" delegates to "+m.delegate)
-			for _, d := range dels {
-				n++
-				ok := false
-				for _, m := range mods {
-					ok = ok || afterSuccess(f, m, d.Pt)
-				}
-				c.Check(ok, short(m.fn)+" marks dirty before writing", "T2+T4", d.Pos(), "the raw write is reached only after modified() returned nil", "the raw store is written without a successful modified(): data can change under a clean mark")
+			nw, bad := c25RawWrites(f, m.delegate, 2)
+			c.Need(nw >= 1, short(m.fn)+" delegates to "+m.delegate)
+			n++
+			pos := f.Pos()
+			if len(bad) > 0 {
+				pos = bad[0]
 			}
+			c.Check(len(bad) == 0, short(m.fn)+" marks dirty before writing", "T2+T4", pos, "the raw write is reached only after modified() returned nil", "the raw store is written without a successful modified(): data can change under a clean mark")
 		}
-		c.ExpectAtLeast("delegating mutator sites", n, 3)
+		c.ExpectAtLeast("delegating mutators", n, 3)
 		// OpenDB hands out the flagged store only
 		od := c.Fn(fpPkg + ".Producer.OpenDB")
 		okOD := true
@@ -100,21 +99,9 @@ func runC25(c *core.Ctx) {
 		}
 		c.Check(okArgs, "dirty mark content", "provenance", put.Pos(), "Put(flushIDKey, {DirtyPrefix})", "modified() does not write {DirtyPrefix} under the flush-ID key")
 		// nil returns: either after a successful Put, or via the Dirty != 0 edge
-		isDirtyLoad := func(e ast.Expr) bool {
-			call := isCallTo(f, e, "sync/atomic.LoadUint32")
-			if call == nil || len(call.Args) != 1 {
-				return false
-			}
-			u, ok := ast.Unparen(call.Args[0]).(*ast.UnaryExpr)
-			return ok && u.Op == token.AND && fieldNameOf(f, u.X) == fStore+".Dirty"
-		}
-		alreadyDirty := func(ft core.Fact) bool {
-			cm, ok := core.NormCmp(ft)
-			if !ok || cm.R == nil {
-				return false
-			}
-			return cm.Op == token.NEQ && isDirtyLoad(cm.L) && core.IsConstInt(f.Info(), cm.R, 0)
-		}
+		// (the test of the in-memory flag may be spelled in a boolean helper: the edge then carries
+		// "helper() is false/true", which is decided from the helper's returns — c25_view.go)
+		alreadyDirty := c25Lift(c25View{G: f, Role: func(ast.Expr) string { return "" }}, c25AlreadyDirty, 2)
 		// Every path to a `return nil` takes the already-dirty edge, or passes the mark Put and then the
 		// edge on which the Put's error is nil. (When the Put's result is returned as it is — `return
 		// s.Store.Put(..)` — that return is not a literal nil and reports exactly the Put's outcome.)
@@ -143,35 +130,35 @@ func runC25(c *core.Ctx) {
 
 	c.Clause("C25.flag.flush", func() {
 		f := c.Fn(fpPkg + ".Producer.Flush")
-		marks := f.CallsTo("kvdb/flushable.MarkFlushID")
-		c.Need(len(marks) == 1, "Producer.Flush writes one mark per database")
-		m := marks[0]
-		okArgs := len(m.Call.Args) == 4 && constNamed(f, m.Call.Args[2], "kvdb/flushable.CleanPrefix") && varOf(f, m.Call.Args[3]) == f.Param(0) && fieldNameOf(f, m.Call.Args[1]) == fpPkg+".Producer.flushIDKey"
-		c.Check(okArgs, "clean mark content", "provenance", m.Pos(), "MarkFlushID(db, flushIDKey, CleanPrefix, id)", "Producer.Flush does not write the clean mark with its key and ID")
+		// the clean-mark calls made by Flush, in Flush itself or in a function it calls with the key and the
+		// flush ID (parameters bound to the arguments: c25_flag.go)
+		marks := c25CleanMarks(f, c25Env{f.Param(0): "id"}, 2, map[*core.FuncInfo]bool{})
+		c.Need(len(marks) >= 1, "Producer.Flush writes one mark per database")
+		for _, m := range marks {
+			c.Check(m.ArgsOK, "clean mark content", "provenance", m.Site.Pos(), "MarkFlushID(db, flushIDKey, CleanPrefix, id)", "Producer.Flush does not write the clean mark with its key and ID")
+		}
 		// the mark goes through the flagged store's own Put? it must NOT re-dirty: it is written via MarkFlushID(db,..) where db is the
 		// flaggedStore; its Put calls modified() first (writes dirty mark if clean), then the clean mark overwrites it: order dirty->clean is fine.
-		clears := f.CallsMatching(func(cs *core.CallSite) bool {
-			if cs.Name != "sync/atomic.StoreUint32" || len(cs.Call.Args) != 2 {
-				return false
-			}
-			u, ok := ast.Unparen(cs.Call.Args[0]).(*ast.UnaryExpr)
-			return ok && u.Op == token.AND && fieldNameOf(f, u.X) == fStore+".Dirty" && core.IsConstInt(f.Info(), cs.Call.Args[1], 0)
-		})
-		c.ExpectAtLeast("Dirty := 0 sites in Producer.Flush", len(clears), 1)
+		// Every reset of the in-memory flag in the package (WhoMayWrite), whatever function it lives in, is
+		// reached only after a clean mark was written successfully in that function (or in a helper whose
+		// nil error certifies it).
+		clears := c25DirtyResets(p)
+		c.ExpectAtLeast("Dirty := 0 sites in the flagged producer", len(clears), 1)
 		for _, cl := range clears {
-			c.Check(afterSuccess(f, m, cl.Pt), "in-memory flag cleared only after the clean mark", "T2+T4", cl.Pos(), "Dirty is reset only after MarkFlushID(Clean) returned nil", "the in-memory dirty flag is cleared although the clean mark may not be on disk (the next write would skip the dirty mark)")
+			c.Check(c25AfterCleanMark(cl.F, cl.Pt), "in-memory flag cleared only after the clean mark", "T2+T4", cl.Pos(), "Dirty is reset only after MarkFlushID(Clean) returned nil", "the in-memory dirty flag is cleared although the clean mark may not be on disk (the next write would skip the dirty mark)")
 		}
-		// who else clears Dirty?
-		for _, g := range p.FuncsInPkg(fpPkg) {
-			all := append([]*core.FuncInfo{g}, g.Lits()...)
-			for _, h := range all {
-				for _, cs := range h.CallsTo("sync/atomic.StoreUint32") {
-					if len(cs.Call.Args) == 2 && core.IsConstInt(h.Info(), cs.Call.Args[1], 0) && h != f {
-						c.Fail("Dirty cleared in "+short(h.Name), "T6 WhoMayWrite", cs.Pos(), "the dirty flag is cleared outside Producer.Flush")
-					}
-				}
+		// and Flush makes (one of) these resets: the flag does not stay set for ever
+		flushHosts := map[*core.FuncInfo]bool{}
+		for _, h := range c22Hosts(f, 2) {
+			flushHosts[h] = true
+		}
+		nIn := 0
+		for _, cl := range clears {
+			if flushHosts[cl.F] {
+				nIn++
 			}
 		}
+		c.ExpectAtLeast("Dirty := 0 sites reached from Producer.Flush", nIn, 1)
 	})
 
 	c.Clause("C25.flag.drop", func() {
